@@ -20,7 +20,8 @@ sys.path.insert(0, HERE)
 from mutants import MUTANTS  # noqa
 
 
-def run_one(m, tier="quick"):
+def run_one(m, tier=None):
+    tier = tier or m.get("tier", "quick")
     tmp = tempfile.mkdtemp(prefix="verif-mut-")
     try:
         shutil.copytree("/repo/src", os.path.join(tmp, "src"), ignore=shutil.ignore_patterns("__pycache__"))
@@ -36,7 +37,7 @@ def run_one(m, tier="quick"):
                            capture_output=True, text=True, timeout=3600)
         keys = [l.strip() for l in p.stdout.splitlines() if l.strip().startswith("key=")]
         return {"id": m["id"], "prop": m["prop"], "exit": p.returncode, "caught": p.returncode == 1,
-                "keys": [k[:200] for k in keys[:4]], "wall_s": round(time.time() - t0, 1), "what": m["what"]}
+                "keys": [k[:200] for k in keys[:4]], "wall_s": round(time.time() - t0, 1), "what": m["what"], "tier": tier}
     finally:
         shutil.rmtree(tmp, ignore_errors=True)
 
